@@ -195,6 +195,27 @@ def run(ctx: Ctx):
         do_minify_via_op(ctx, gen.rand_dfa(rng, 4, al), gen.rand_dfa(rng, 4, al), "random_via_op")
 
 
+def search(ctx: Ctx):
+    """Deeper failing-input search: larger sweep biased to partial sources with explicit
+    transitions into dead states, unreachable parts and trap-like names."""
+    rng = ctx.rng
+    for _ in range(ctx.budget(15000, 80000)):
+        if ctx.n_prop_fails:
+            return
+        k = rng.random()
+        if k < 0.6:
+            names = None
+            if rng.random() < 0.5:
+                pool = [-1, -2, -3, 0, 1, 2, 3, "x"]
+                rng.shuffle(pool)
+                names = pool[:rng.randint(2, 7)]
+            do_minify(ctx, gen.rand_dfa(rng, 7, partial=True if rng.random() < 0.7 else None, names=names),
+                      rng.random() < 0.5, "search")
+        else:
+            al = rng.choice(gen.ALPHABETS)
+            do_minify_via_op(ctx, gen.rand_dfa(rng, 5, al), gen.rand_dfa(rng, 4, al), "search")
+
+
 def corpus():
     out = []
     # F1: explicit transition into a dead state of a partial DFA
